@@ -9,6 +9,7 @@ import (
 	"strings"
 	"testing"
 	"time"
+	"unicode/utf8"
 
 	"github.com/ozontech/file.d/fd"
 	"github.com/ozontech/file.d/metric"
@@ -142,6 +143,8 @@ func k8sLine(class byte, st streamDef, pos int) line {
 		txt = "P" + id + ":"
 	case 'F':
 		txt = "F" + id + ":\n"
+	case 'Q': // partial chunk whose text needs JSON escapes (the action concatenates the escaped form)
+		txt = `"` + id + `""`
 	case 'B': // partial chunk of a big event (its size alone crosses split_event_size when that is small)
 		txt = "B" + id + ":"
 		pad = strings.Repeat("x", 300)
@@ -156,6 +159,16 @@ func k8sLine(class byte, st streamDef, pos int) line {
 }
 
 const predictionLookahead = 128 * 1024
+
+func k8sAlphabet(thorough, splitSmall bool) string {
+	switch {
+	case thorough:
+		return "PFBQT"
+	case splitSmall:
+		return "PFBT"
+	}
+	return "PFQT"
+}
 
 func specs(thorough bool) []*spec {
 	var out []*spec
@@ -249,7 +262,7 @@ func specs(thorough bool) []*spec {
 			ID: "k8s-multiline/" + k.name, Plugin: "k8s-multiline", Family: "k8s", Limit: k.limit, CutOff: k.cut, SplitSmall: k.splitS,
 			Config:   fmt.Sprintf(`{"offsets_file":"/tmp/verif-c15-offsets.yaml","split_event_size":%d}`, split),
 			Settings: pipeline.Settings{MaxEventSize: k.limit, CutOffEventByLimit: k.cut, CutOffEventByLimitField: k.field},
-			Alphabet: "PFBT", mkLine: k8sLine,
+			Alphabet: k8sAlphabet(thorough, k.splitS), mkLine: k8sLine,
 		})
 	}
 	return out
@@ -506,7 +519,7 @@ func k8sModel(lines []line, delivered []bool, tFlushes bool) []entry {
 				out = append(out, *run)
 				run = nil
 			}
-		case 'P', 'B':
+		case 'P', 'B', 'Q':
 			if run == nil {
 				run = &entry{run: true}
 			}
@@ -554,6 +567,14 @@ func timeoutAfterLimit(s *spec, res *runResult) bool {
 		}
 	}
 	return false
+}
+
+func nextRuneEnd(s string, i int) int {
+	if i >= len(s) {
+		return len(s)
+	}
+	_, n := utf8.DecodeRuneInString(s[i:])
+	return i + n
 }
 
 func escLen(s string) int { return len(jsonStr(s)) - 2 }
@@ -625,7 +646,8 @@ func match(s *spec, exp []entry, act []outEv, ei, ai int) bool {
 	// (c) size limit with cut-off: a prefix that has reached the limit (the line's final \n may be kept)
 	if s.CutOff && ai < len(act) && hasID(e, act[ai].ID) && act[ai].LogStr {
 		p := strings.TrimSuffix(act[ai].Log, "\n")
-		if len(p) < len(full) && strings.HasPrefix(full, p) && limitReached(p) && match(s, exp, act, ei+1, ai+1) {
+		// reached = one more character of the run would reach the limit (a cut never has to split an escape sequence)
+		if len(p) < len(full) && strings.HasPrefix(full, p) && limitReached(full[:nextRuneEnd(full, len(p))]) && match(s, exp, act, ei+1, ai+1) {
 			return true
 		}
 	}
@@ -652,7 +674,11 @@ func render(exp []entry) string {
 			for _, l := range e.lines {
 				ids = append(ids, l.ID)
 			}
-			p = append(p, fmt.Sprintf("run(%s)=%q", strings.Join(ids, "+"), e.full()))
+			lost := ""
+			if e.tailLost {
+				lost = "dropped-by-time-out:"
+			}
+			p = append(p, fmt.Sprintf("%srun(%s)=%q", lost, strings.Join(ids, "+"), e.full()))
 		} else {
 			p = append(p, e.lines[0].Doc)
 		}
@@ -756,7 +782,11 @@ func (c *checker) check(tc *tcase) {
 	r.Steps(res.steps)
 	if res.problem != "" {
 		if res.problem == "panic" {
-			feat["site"] = vreport.PanicSite(res.detail)
+			st := res.detail
+			if i := strings.Index(st, "\npanic("); i >= 0 {
+				st = st[i:] // skip the frames of the recovering wrapper
+			}
+			feat["site"] = vreport.PanicSite(st)
 		}
 		r.Violation(res.problem, feat, fmt.Sprintf("spec=%s procs=%d layout=%d ops=%s: %s\n%s\noutput so far: %s", s.ID, tc.Procs, tc.Layout, tc.Ops, res.problem, res.detail, renderAct(res.out)), tc)
 		c.pool = nil
@@ -847,6 +877,14 @@ func (c *checker) check(tc *tcase) {
 				f["diff"] = diffKind(res, streams, si, act)
 				if s.Family == "k8s" && timeoutAfterLimit(s, res) {
 					f["cause"] = "timeout-after-limit"
+				}
+				if s.Family == "k8s" && s.CutOff {
+					// no input text contains a backslash: a field ending in backslash+n is a cut escape sequence + the line end
+					for _, a := range act {
+						if strings.HasSuffix(a.Log, `\n`) {
+							f["cause"] = "cut-inside-escape"
+						}
+					}
 				}
 			}
 			multi := "single"
